@@ -212,6 +212,25 @@ Definition run_commit (len : N) (valid : bool) (buf : bytes) : bytes :=
   | Totality.Panic _ => L "panic" end.
 Definition run_ruint (p : profile) (size : N) (data : bytes) : bytes := show_out (fun n => L "ok " ++ dec_of_N n) (read_uint_p p data (N.to_nat size)).
 
+(* ---------------------------------------------------------------- ctor: the small fallible integer constructors *)
+Definition show_opt (o : option N) : bytes := match o with Some v => L "ok " ++ dec_of_N v | None => L "none" end.
+Definition show_res_n (o : Totality.outcome N) : bytes := match o with Totality.Val v => L "ok " ++ dec_of_N v | Totality.Fail _ => L "err" | Totality.Panic _ => L "panic" end.
+Definition run_ctor (f : bytes) (n : N) : bytes :=
+  if bytes_eqb f (L "seqfloor") then show_res_n (seq_from_seconds_floor n)
+  else if bytes_eqb f (L "seqceil") then show_res_n (seq_from_seconds_ceil n)
+  else if bytes_eqb f (L "seqheight") then L "ok " ++ dec_of_N (seq_from_height n)
+  else if bytes_eqb f (L "seq512") then L "ok " ++ dec_of_N (seq_from_512 n)
+  else if bytes_eqb f (L "ltconsensus") then L "ok " ++ (if is_block_height n then L "b" else L "s") ++ dec_of_N n
+  else if bytes_eqb f (L "ltheight") || bytes_eqb f (L "height") then show_res_n (lt_from_height n)
+  else if bytes_eqb f (L "lttime") || bytes_eqb f (L "time") then show_res_n (lt_from_time n)
+  else if bytes_eqb f (L "ecdsastd") then show_res_n (ecdsa_from_standard n)
+  else if bytes_eqb f (L "psbtecdsa") then show_opt (match ecdsa_from_standard n with Totality.Val v => Some v | _ => None end)
+  else if bytes_eqb f (L "schnorr") then show_opt (sighash_from_u8 n)
+  else if bytes_eqb f (L "psbtschnorr") then show_opt (psbt_schnorr_hash_ty n)
+  else if bytes_eqb f (L "leafver") then (match leafver_from_u8 n with Taproot.Ok v => L "ok " ++ dec_of_N (b2n v) | Taproot.Err _ => L "err" end)
+  else if bytes_eqb f (L "ordinary") then show_opt (ordinary_try_from_all n)
+  else err "ctor".
+
 Definition starts_with (p s : bytes) : bool := bytes_eqb (firstn (length p) s) p.
 
 Definition run (args : list bytes) : bytes :=
@@ -243,6 +262,7 @@ Definition run (args : list bytes) : bytes :=
           if bytes_eqb k (L "minval") then run_minval a b c
           else if bytes_eqb k (L "psetval") then
             match decs b, hexarg c with Some [kv; maxvec], Some s => strip_err (run_psetval a (negb (kv =? 0)) maxvec s) | _, _ => err "fields" end
+          else if bytes_eqb k (L "ctor") then match parse_prof a, N_of_dec c with Some _, Some n => run_ctor b n | _, _ => err "fields" end
           else if bytes_eqb k (L "ruint") then match parse_prof a, N_of_dec b, hexarg c with Some p, Some n, Some s => run_ruint p n s | _, _, _ => err "fields" end
           else err "kind"
       | [a; b; c; d] =>
